@@ -357,6 +357,21 @@ def run(spec, rec):
   import jax
   x64 = bool(jax.config.jax_enable_x64)
   rng = util.rng_for(spec["seed"], PROPERTY, spec["name"])
+  if x64 and spec["name"].endswith("0"):
+    # fixed regression input of the known finding lobpcg-breakdown-rank-below-k (17x17 rank-one matrix, k = 2), plus
+    # rank-one / rank-two matrices of other sizes with k above the rank
+    import json
+    import os
+    with open(os.path.join(os.path.dirname(os.path.dirname(os.path.abspath(__file__))), "data", "c01_lobpcg_rank1.json")) as f:
+      fixed = util.dec(json.load(f))
+    check_direct(fixed, rec, x64)
+    rec.count("rank_below_k_cases")
+    r2 = np.random.default_rng(7)
+    for n, r, k in [(12, 1, 2), (17, 1, 3), (23, 2, 3), (11, 1, 2), (29, 1, 2), (16, 2, 3)]:
+      V = r2.standard_normal((n, r)) * 10 ** r2.uniform(-2, 3)
+      check_direct({"N": n + 4, "n": n, "pad": 4, "p": int(r2.integers(1, 9)), "eps": 1e-6, "rel": True, "method": "lobpcg", "k": k,
+                    "lobpcg_iters": 0, "family": "rank-below-k", "A": V @ V.T}, rec, x64)
+      rec.count("rank_below_k_cases")
   todo = [(N, i) for i in range(spec["per"]) for N in spec["N"]]
   for j, (N, i) in enumerate(todo):
     if time.time() > rec.deadline:
